@@ -230,4 +230,87 @@ theorem cached_read_transparent_thm (hs : Hs D) (cfg : VCfg) (vlogs : List Bytes
     rw [hl] at hd
     simp only [Option.bind_some, hg, Option.bind_none, hd, copyInto_same_length b bval hl, hl]
 
+/-! ### eviction by `TruncateUptoTx` -/
+
+theorem lookup_filter_none {α : Type} (c : List (Nat × α)) (k : Nat) (f : Nat × α → Bool)
+    (h : ∀ v, f (k, v) = false) : List.lookup k (c.filter f) = none := by
+  induction c with
+  | nil => rfl
+  | cons p c ih =>
+    obtain ⟨k', v'⟩ := p
+    by_cases hf : f (k', v') = true
+    · rw [List.filter_cons_of_pos hf, List.lookup_cons]
+      have hk : (k == k') = false := by
+        cases hkk : k == k' with
+        | false => rfl
+        | true =>
+          have : k = k' := by simpa using hkk
+          subst this
+          rw [h v'] at hf
+          cases hf
+      rw [hk]
+      exact ih
+    · rw [List.filter_cons_of_neg hf]
+      exact ih
+
+theorem lookup_filter_keep {α : Type} (c : List (Nat × α)) (k : Nat) (f : Nat × α → Bool)
+    (h : ∀ v, f (k, v) = true) : List.lookup k (c.filter f) = List.lookup k c := by
+  induction c with
+  | nil => rfl
+  | cons p c ih =>
+    obtain ⟨k', v'⟩ := p
+    by_cases hf : f (k', v') = true
+    · rw [List.filter_cons_of_pos hf, List.lookup_cons, List.lookup_cons, ih]
+    · rw [List.filter_cons_of_neg hf, List.lookup_cons]
+      have hk : (k == k') = false := by
+        cases hkk : k == k' with
+        | false => rfl
+        | true =>
+          have : k = k' := by simpa using hkk
+          subst this
+          exact absurd (h v') hf
+      rw [hk]
+      exact ih
+
+/-- After the eviction no value of that log stored before the discard offset is in the cache. -/
+theorem evictUpto_get_below_thm (c : VCache) (vlog upto k : Nat) (h1 : k / 2 ^ 56 % 256 = vlog)
+    (h2 : k % 2 ^ 55 < upto) : (c.evictUpto vlog upto).get k = none := by
+  unfold VCache.evictUpto VCache.get
+  apply lookup_filter_none
+  intro v
+  simp [h1, h2]
+
+/-- Every other cached value — another log, or at/after the discard offset — stays as it was. -/
+theorem evictUpto_get_other_thm (c : VCache) (vlog upto k : Nat)
+    (h : k / 2 ^ 56 % 256 ≠ vlog ∨ upto ≤ k % 2 ^ 55) : (c.evictUpto vlog upto).get k = c.get k := by
+  unfold VCache.evictUpto VCache.get
+  apply lookup_filter_keep
+  intro v
+  rcases h with h | h
+  · simp [h]
+  · simp; exact Or.inr (by simpa using h)
+
+/-- The eviction only removes entries: a coherent cache stays coherent. -/
+theorem evictUpto_coherent_thm (cfg : VCfg) (vlogs : List Bytes) (txLog : Bytes) (c : VCache) (vlog upto : Nat)
+    (hc : c.Coherent cfg vlogs txLog) : (c.evictUpto vlog upto).Coherent cfg vlogs txLog := by
+  intro off bs hm
+  exact hc off bs (List.mem_filter.mp hm).1
+
+/-- A read below the discard point after the eviction takes the disk path: same answer as without a
+cache. -/
+theorem evicted_read_from_disk_thm (hs : Hs D) (cfg : VCfg) (vlogs : List Bytes) (txLog : Bytes)
+    (c : VCache) (vlog upto : Nat) (b : Bytes) (vOff : Nat) (hVal : D) (skip : Bool)
+    (h1 : vOff / 2 ^ 56 % 256 = vlog) (h2 : vOff % 2 ^ 55 < upto) :
+    (readValueAtC hs cfg vlogs txLog (some (c.evictUpto vlog upto)) b vOff hVal skip).2 =
+    (readValueAtC hs cfg vlogs txLog none b vOff hVal skip).2 := by
+  have hg := evictUpto_get_below_thm c vlog upto vOff h1 h2
+  unfold readValueAtC
+  split
+  · rfl
+  split
+  · rfl
+  simp only [Option.bind_some, hg, Option.bind_none]
+  split <;> rfl
+
+
 end ImmuModel.Tx.Rec
